@@ -403,6 +403,15 @@ func (r *Runner) doStep(st Step) bool {
 		if e.Coll == nil {
 			return true
 		}
+		if st.A == "footerimage" && e.FS != nil && len(st.B.Ops) > 0 && len(st.B.Ops[0].Key) == 0 && st.B.Ops[0].Kind == 'S' {
+			// hostile value: a byte-exact image of a footer this store wrote
+			// two rounds ago, as the value of the empty key - the first bytes
+			// of the segment's buffer, i.e. at a page start in the file
+			if img := e.FS.FooterImage(1); img != nil {
+				st.B.Ops[0].Val = img
+				r.cnt("hostile.footer_image_values", 1)
+			}
+		}
 		if err := e.ExecBatch(st.B); err != nil {
 			if strings.HasPrefix(err.Error(), "watchdog") {
 				return r.watchdog(err.Error())
